@@ -3,7 +3,7 @@
    rotation kernel is an oracle whose optimality is C06; contacts are Model_contact (C05/C14),
    the superposition step is Model_superpose (C13)).  Spec: Spec_rmsd. *)
 From Verif Require Import PyLib ModelTypes Generated_parse Generated_rmsd Model_contact Model_superpose Spec_superpose
-  Model_rmsd Spec_rmsd Proofs_superpose Proofs_rmsd Proofs_contact_c05 Proofs_izone Proofs_rigid_rmsd Proofs_superpose_opt Proofs_rmsd_opt Model_zone Proofs_rmsd_def Proofs_rmsd_def2.
+  Model_rmsd Spec_rmsd Proofs_superpose Proofs_rmsd Proofs_contact_c05 Proofs_izone Proofs_rigid_rmsd Proofs_superpose_opt Proofs_rmsd_opt Model_zone Proofs_rmsd_def Proofs_rmsd_def2 Proofs_routes_l Proofs_rmsd_def3.
 Open Scope Q_scope.
 
 (* the three fixed-column readers of the fast routes read today's wwPDB columns (regenerated) *)
@@ -49,6 +49,21 @@ Theorem C07_irmsd_fast_is_definition : forall z decoy ref rmat check enforce b,
      msd (superpose_selection rmat (map fst pairs) (map snd pairs) (map fst pairs)) (map snd pairs)).
 Proof. exact irmsd_fast_is_definition'. Qed.
 Print Assumptions C07_irmsd_fast_is_definition.
+
+(* THE FAST L-RMSD IS ITS DEFINITION under the same conditions, with the ligand zone the library computes from the reference:
+   fit on the identity pairs (atom names as given) of the longer chain of the reference, measure on those of the other chain *)
+Theorem C07_lrmsd_fast_is_definition : forall decoy ref c1 c2 names rmat check enforce b,
+  NoDup (map key3_of decoy) -> get_chains ref = [c1; c2] ->
+  same_order_for (Pin ref c1 c2 names) decoy ref -> same_order_for (Pout ref c1 c2 names) decoy ref ->
+  (check || enforce)%bool = true -> check_residues enforce (Some names) decoy ref = Ok b ->
+  compute_lzone ref = Ok (lz ref c1 c2) /\
+  lrmsd_fast rmat (lz ref c1 c2) check enforce names decoy ref
+  = match lrmsd_pairs_spec names decoy ref with
+    | Some (fit, meas) => msd (superpose_selection rmat (map fst fit) (map snd fit) (map fst meas)) (map snd meas)
+    | None => Err "unreachable"
+    end.
+Proof. exact lrmsd_fast_is_definition'. Qed.
+Print Assumptions C07_lrmsd_fast_is_definition.
 
 (* atoms missing from the decoy are left out: the specification's pairs are exactly the reference
    atoms of the selection that have a decoy atom of the same identity *)
